@@ -21,7 +21,8 @@ def run(ctx):
     RH.new_pair_guards(ctx, "R01.g")
     RK.renumber_after_mutation(ctx, "R01.g", floor=1)
     RT.only_store_add_feeds_index(ctx, "R01.g")
-    RT.generator_sorted_dedup(ctx, "R01.g")
+    if RP.strict_posting_assertion(ctx):
+        RT.generator_sorted_dedup(ctx, "R01.g")
     RS.consistency_group(ctx, "R01.g", include_memo=False, frame=False)
     # unchecked accesses abort in a checked build (debug preconditions) and are UB otherwise
     R19.discharge_sites(ctx)
